@@ -25,6 +25,17 @@ def mutations(rnd, b, ctx, per_record):
         m = bytearray(b); m[0:4] = (t & 0xFFFFFFFF).to_bytes(4, "big")
         out.append(bytes(m)); ctx.count("dec_tag_rewritten")
     out.append(b + bytes(rnd.getrandbits(8) for _ in range(rnd.randint(1, 9)))); ctx.count("dec_valid_with_tail")
+    # mutations of the body with the checksum recomputed: these get past the CRC and exercise the
+    # decoder's own validation (version byte, option tags, type tag, length prefixes)
+    import zlib
+    body = b[:-8]
+    cands = list(range(min(len(body), 64)))
+    for p in (cands if len(body) <= 64 else rnd.sample(cands, 24)):
+        for v in (0, 1, 2, 5, 255, body[p] ^ 1):
+            if v == body[p]:
+                continue
+            m = bytearray(body); m[p] = v
+            out.append(bytes(m) + (zlib.crc32(bytes(m)) & 0xFFFFFFFF).to_bytes(8, "big")); ctx.count("dec_mutated_with_valid_checksum")
     return out
 
 
